@@ -114,6 +114,47 @@ def main(tier):
                                 continue
                             if len(got) != L or not all(same(float(a), b if not hasattr(b, 'item') else b.item()) for a, b in zip(combo, got)):
                                 fail(kind='array-value', value=repr(combo), read_back=repr(got), row=r + 1, start=start + 1, delim=delim_name)
+            # arrays wrapping over several template rows (row_end > row_start): first row from field_start to the end of
+            # the line, whole middle rows, last row up to field_end
+            import numpy as np
+            pool_vals = floats[:9] + floats[12:15]
+            for r0 in range(nrow):
+                for r1 in range(r0 + 1, nrow):
+                    for fs in range(ncol):
+                        for fe in range(ncol):
+                            L = (ncol - fs) + (r1 - r0 - 1) * ncol + (fe + 1)
+                            for shift in ((0, 5) if tier != 'quick' else (0,)):
+                                ev += 1
+                                combo = [pool_vals[(k * 5 + shift + r0 + fs) % len(pool_vals)] for k in range(L)]
+                                try:
+                                    g = InputFileGenerator()
+                                    g.set_template_file(tfile)
+                                    g.set_generated_file(gfile)
+                                    if delim_name == 'comma':
+                                        g.set_delimiters(', ')
+                                    g.mark_anchor('ANCHOR')
+                                    g.transfer_array(np.array(combo), r0 + 1, fs + 1, fe + 1, row_end=r1 + 1)
+                                    g.generate()
+                                    p = FileParser()
+                                    p.set_file(gfile)
+                                    if delim_name == 'comma':
+                                        p.set_delimiters(', ')
+                                    p.mark_anchor('ANCHOR')
+                                    got = list(np.atleast_1d(p.transfer_array(r0 + 1, fs + 1, r1 + 1, fe + 1)))
+                                    rest_ok = True
+                                    for r2 in range(nrow):
+                                        for c2 in range(ncol):
+                                            inside = (r0 < r2 < r1) or (r2 == r0 and c2 >= fs) or (r2 == r1 and c2 <= fe)
+                                            if not inside and not same(base[r2][c2], p.transfer_var(r2 + 1, c2 + 1)):
+                                                rest_ok = False
+                                except Exception as e:     # noqa
+                                    fail(kind='array-exception', value=repr(combo), row=r0 + 1, row_end=r1 + 1, start=fs + 1, end=fe + 1, delim=delim_name, error='%s: %s' % (type(e).__name__, e))
+                                    continue
+                                nontrivial.add((delim_name, nrow, ncol, 'wrap', r0, r1, fs, fe, shift))
+                                if len(got) != L or not all(same(float(a), b if not hasattr(b, 'item') else b.item()) for a, b in zip(combo, got)):
+                                    fail(kind='array-value', value=repr(combo), read_back=repr(got), row=r0 + 1, row_end=r1 + 1, start=fs + 1, end=fe + 1, delim=delim_name)
+                                elif not rest_ok:
+                                    fail(kind='other-fields-disturbed', value=repr(combo), row=r0 + 1, row_end=r1 + 1, start=fs + 1, end=fe + 1, delim=delim_name)
     import shutil
     shutil.rmtree(tmp, ignore_errors=True)
     print(json.dumps({'evaluations': ev, 'distinct_nontrivial': len(nontrivial), 'n_failures': len(fails),
